@@ -389,7 +389,7 @@ pub fn c04_scenarios(ns: &[u64]) -> Vec<Scn> {
     // check fails) while the sibling and the producer, here one thread, move the
     // stream and the ring on around it; needs five alternations
     for &n in ns {
-        if n != 2 {
+        if n > 2 {
             continue;
         }
         let b = q(Flavour::B, n, WaitK::Busy);
@@ -1201,6 +1201,28 @@ pub fn c16_scenarios(ns: &[u64]) -> Vec<Scn> {
         s.horizon = 60_000;
         out.push(s);
     }
+    // a writer is in the middle of a list scan (its token still at the old epoch)
+    // while one other thread opens a reclamation cycle, brings every other handle
+    // up to date, drops a handle that was created before the writer's, and retires
+    // more: the cycle must not complete over the writer's head
+    {
+        let cfg = q(Flavour::B, 1, WaitK::Busy);
+        let mut s = Scn::new("c16-scan-vs-cycle-and-earlier-handle-drop", cfg);
+        s.prefix = prep(St::Full, 1, &[R0]);
+        s.prefix.push(opd(CloneH, S0, S1));
+        s.prefix.push(opd(CloneH, S0, S2));
+        s.prefix.push(opd(AddStream, R0, 8));
+        let mut a = Vec::new();
+        for _ in 0..6 {
+            a.push(opd(AddStream, R0, R4));
+            a.push(op(DropH, R4));
+        }
+        a.extend([opv(TrySend, S0, 1), op(TryRecv, R0), opv(TrySend, S1, 11), op(TryRecv, 8)]);
+        a.extend([opd(CloneH, R0, R4), op(DropH, R4), op(DropH, S1), opd(CloneH, R0, R4), op(DropH, R4)]);
+        s.threads = vec![vec![opv(TrySend, S2, 21)], a];
+        s.horizon = 60_000;
+        out.push(s);
+    }
     // a cycle is open because of an idle straggler; more retirements arrive (the
     // count is swept across the threshold); the straggler leaves while a writer
     // that already announced the new epoch is in the middle of a list scan
@@ -1432,6 +1454,8 @@ pub enum Role {
     AS,
     AS2,
     CL,
+    CL2,
+    UC,
     CS,
     CV,
 }
@@ -1439,9 +1463,9 @@ pub enum Role {
 pub fn matrix_scenarios(fl: Flavour, n: u64, max_roles: usize) -> Vec<Scn> {
     use Role::*;
     let roles: Vec<Role> = if fl == Flavour::B {
-        vec![P1, P2, C1, C2, C3, V, DS, DR, DL, DL2, D0, UL, AS, AS2, CL, CS, CV]
+        vec![P1, P2, C1, C2, C3, V, DS, DR, DL, DL2, D0, UL, AS, AS2, CL, CL2, UC, CS, CV]
     } else {
-        vec![P1, P2, C1, C2, DS, DR, D0, CL, CS]
+        vec![P1, P2, C1, C2, DS, DR, D0, CL, CL2, UC, CS]
     };
     let ops_of = |r: Role, base: u32| -> Vec<Op> {
         match r {
@@ -1460,6 +1484,8 @@ pub fn matrix_scenarios(fl: Flavour, n: u64, max_roles: usize) -> Vec<Scn> {
             AS => vec![opd(AddStream, 11, 12), op(TryRecv, 12)],
             AS2 => vec![opd(AddStream, 13, 14)],
             CL => vec![opd(CloneH, 15, 16), op(DropH, 16)],
+            CL2 => vec![opd(CloneH, 19, 20), op(DropH, 19)],
+            UC => vec![op(Unsub, 21)],
             CS => vec![opd(CloneH, 9, 10), opv(TrySend, 10, base + 1), op(DropH, 10)],
             CV => vec![op(IntoSingle, 17), op(IntoMulti, 17)],
         }
@@ -1476,6 +1502,8 @@ pub fn matrix_scenarios(fl: Flavour, n: u64, max_roles: usize) -> Vec<Scn> {
             AS => vec![opd(CloneH, 1, 11)],
             AS2 => vec![opd(CloneH, 1, 13)],
             CL => vec![opd(CloneH, 1, 15)],
+            CL2 => vec![opd(CloneH, 1, 19)],
+            UC => vec![opd(CloneH, 1, 21)],
             C3 => vec![opd(AddStream, 1, 5)],
             V => vec![opd(AddStream, 1, 6), op(IntoSingle, 6)],
             DL | UL => vec![opd(AddStream, 1, 8)],
@@ -1503,12 +1531,16 @@ pub fn matrix_scenarios(fl: Flavour, n: u64, max_roles: usize) -> Vec<Scn> {
         if combo.contains(&D0) && combo.contains(&C1) {
             continue; // both use the primary receiver handle
         }
+        if combo.contains(&CL2) && !combo.contains(&CL) {
+            continue; // a second cloner only matters next to the first
+        }
         if combo.contains(&DL2) && !(combo.contains(&DL) || combo.contains(&UL)) {
             continue; // the second handle of that stream only matters with the first
         }
         // at least one role must move values, or two must change the stream set
         let traffic = combo.iter().any(|r| matches!(r, P1 | P2 | C1 | C2 | C3 | V | CS | AS | D0));
-        if !traffic {
+        let structural_pair = combo.len() == 2 || combo.iter().filter(|r| matches!(r, CL | CL2 | UC | DR | DL | DL2 | UL | AS | AS2 | CV)).count() >= 2;
+        if !traffic && !structural_pair {
             continue;
         }
         for st in [St::One, St::Full] {
